@@ -141,11 +141,13 @@ BootF(t) ==
   ELSE [t EXCEPT !.live = TRUE,
                  !.fcalls = IF AsIs /\ t.kind # "DE2" THEN 0 ELSE t.fcalls]
 
+CallF(t, mode) ==
+  [BootF(t) EXCEPT !.pc = "pre", !.mode = mode, !.msg = "None", !.began = FALSE,
+                   !.ncalls = t.ncalls + 1,
+                   !.exitreq = IF mode = "solve" THEN FALSE ELSE t.exitreq]
 Call(mode) ==
   /\ s.pc = "idle" /\ s.ncalls < MaxCalls
-  /\ s' = [BootF(s) EXCEPT !.pc = "pre", !.mode = mode, !.msg = "None", !.began = FALSE,
-                           !.ncalls = s.ncalls + 1,
-                           !.exitreq = IF mode = "solve" THEN FALSE ELSE s.exitreq]
+  /\ s' = CallF(s, mode)
 
 (* the check before stepping exists only once something has been recorded *)
 PreStop ==
